@@ -18,7 +18,7 @@ RULE = ("(a) schedules (source-line granularity) of {accept thread submitting 2-
 ASSUMPTIONS = ["scheduling points are source lines of Pool/Worker methods and the job body; CPython can also switch between bytecodes of one line",
                "a job accepted just before a racing close() may be dropped (the statement's 'starts no further job'); only runs without close require every accepted job to run",
                "a refusal is illegitimate only if accepted-minus-completed(notify_done returned) < THREADPOOL_SIZE at process() entry"]
-REQUIRED_REACH = ["schedules_explored", "jobs_executed", "refusals_seen", "closes_completed", "socket_clients_served", "socket_clients_refused", "unix_socket_runs", "proxy_retries_after_refusal", "start_faults_injected", "workers_killed_by_exiting_jobs"]
+REQUIRED_REACH = ["schedules_explored", "jobs_executed", "refusals_seen", "closes_completed", "socket_clients_served", "socket_clients_refused", "unix_socket_runs", "proxy_retries_after_refusal", "start_faults_injected", "workers_killed_by_exiting_jobs", "full_pool_refusals_checked"]
 SHARD_TIMEOUT = {"quick": 240, "thorough": 3000}
 
 
@@ -395,6 +395,35 @@ def socket_run(P, rec, r, size, nclients, inject, unix=False):
                 rec.violation("connection-dropped-silently", "client %s neither served nor refused with a reason: %s %r" % (i, outcome, a), pay)
         if max_active[0] > size:
             rec.violation("too-many-workers", "%d clients were served concurrently with THREADPOOL_SIZE=%d" % (max_active[0], size), pay)
+        # a full pool, for certain: `size` clients hold their connections; whoever comes now - also a client speaking a serializer this daemon
+        # does not have (another implementation, a missing optional library) - is told at once that there are no free workers
+        if fx.wait_until(lambda: fx.busy_count() == 0, 10.0):
+            holders = []
+            try:
+                for _ in range(size):
+                    h = wire.RawClient(fx.location, timeout=10.0)
+                    if h.handshake("svc", ser).type == wire.CONNECTOK:
+                        holders.append(h)
+                if len(holders) == size and fx.wait_until(lambda: fx.busy_count() == size, 5.0):
+                    for ser_id, label in ((ser.serializer_id, "known serializer"), (42, "unknown serializer id 42"), (0, "serializer id 0")):
+                        c = wire.RawClient(fx.location, timeout=10.0)
+                        try:
+                            c.send(wire.encode(wire.CONNECT, 0, 0, ser_id, ser.dumps({"handshake": "hello", "object": "svc"})))
+                            try:
+                                m = c.recv_msg()
+                                text = repr(P.serializers.serializers_by_id[m.ser].loads(m.data)) if m.type == wire.CONNECTFAIL else "message type %d" % m.type
+                            except (EOFError, OSError) as x:
+                                m, text = None, "no answer at all (%r)" % (x,)
+                        finally:
+                            c.close()
+                        rec.case(("full-pool", size, label, unix))
+                        if m is None or m.type != wire.CONNECTFAIL or "no free workers" not in text:
+                            rec.violation("connection-dropped-silently" if m is None else "refusal-without-reason", "all %d workers busy; a client with a %s in its connect message got: %s" % (size, label, text), pay)
+                            break
+                        rec.count("full_pool_refusals_checked")
+            finally:
+                for h in holders:
+                    h.close()
         # accounting after the run
         ok = fx.wait_until(lambda: fx.busy_count() == 0, 10.0)
         if not ok:
